@@ -96,20 +96,43 @@ Base == [fam |-> None, kind |-> None, fmt |-> None, store |-> "sql", kh |-> "sta
 
 Formats == {"ldp", "jwt"}
 
+(***************************************************************************)
+(* Who signed, when it is not the claimed issuer / the subject: an         *)
+(* attacker e with a resolvable DID document and a valid key KE.  The      *)
+(* classes are the TEXTUAL relations between e's DID and the DID d it      *)
+(* poses as -- every comparison of identifiers in the pipeline has to be   *)
+(* an equality of DIDs, not of prefixes / substrings:                      *)
+(*   unrelated    no textual relation                                      *)
+(*   host-suffix  d is a proper prefix of e:  d ++ ".evil.org"             *)
+(*   sub-path     d is a proper prefix of e:  d ++ ":users:x"              *)
+(*   shorter      e is a proper prefix of d                                *)
+(***************************************************************************)
+Related == {"host-suffix", "sub-path", "shorter"}
+Attackers == {"unrelated"} \cup Related
+
 \* credentials: issued at 4, optional expiry at 6
 Stores == {"didstore", "sql"}    \* did:nuts documents live in the didstore, did:web documents in SQL
 VCCases == {[Base EXCEPT !.fam = "vc", !.kind = "vc", !.fmt = f, !.store = sr, !.kh = kh, !.vm = vm, !.exp = e, !.at = at,
                          !.trusted = tr, !.allowUntrusted = au, !.revoked = rv, !.checkSig = cs] :
-              f \in Formats, sr \in Stores, kh \in KeyHist, vm \in {"issuer", "other"}, e \in {0, 6}, at \in {1, 3, 5, 7, Now},
-              tr \in BOOLEAN, au \in BOOLEAN, rv \in BOOLEAN, cs \in BOOLEAN}
+              f \in Formats, sr \in Stores, kh \in KeyHist, vm \in {"issuer", "unrelated"}, e \in {0, 6}, at \in {1, 3, 5, 7, Now},
+              tr \in BOOLEAN, au \in BOOLEAN, rv \in BOOLEAN, cs \in BOOLEAN} \cup
+           \* the attacker's DID is textually related to the issuer's: focused product (the relation is independent of the rest)
+           {[Base EXCEPT !.fam = "vc", !.kind = "vc", !.fmt = f, !.store = sr, !.kh = kh, !.vm = vm, !.at = at,
+                         !.trusted = tr, !.allowUntrusted = ~tr] :
+              f \in Formats, sr \in Stores, kh \in {"stable", "foreign", "unresolvable"}, vm \in Related, at \in {5, Now}, tr \in BOOLEAN}
 
 \* presentations: proof created at 4, optional expiry at 6; the credentials they carry were issued at 2 by a stable trusted issuer
 VPSigCases == {[Base EXCEPT !.fam = "vpsig", !.kind = "vp", !.fmt = f, !.store = sr, !.kh = kh, !.presenter = pr, !.holder = ho,
                             !.subjects = su, !.exp = e, !.at = at, !.vcFmt = "ldp"] :
-              f \in Formats, sr \in Stores, kh \in KeyHist, pr \in {"subject", "other"}, ho \in {"absent", "signer", "other"},
-              su \in {"none", "one", "two-same", "two-mixed"}, e \in {0, 6}, at \in {3, 5, 7, Now}}
+              f \in Formats, sr \in Stores, kh \in KeyHist, pr \in {"subject", "unrelated"}, ho \in {"absent", "signer", "other"},
+              su \in {"none", "one", "two-same", "two-mixed"}, e \in {0, 6}, at \in {3, 5, 7, Now}} \cup
+              {[Base EXCEPT !.fam = "vpsig", !.kind = "vp", !.fmt = f, !.store = sr, !.presenter = pr, !.holder = ho,
+                            !.subjects = su, !.at = at, !.vcFmt = "ldp"] :
+              f \in Formats, sr \in Stores, pr \in Related, ho \in {"absent", "signer"}, su \in {"one", "two-same"}, at \in {5, Now}}
 
-VCStates == {"ok", "expired", "notyet", "revoked", "untrusted", "badsig"}
+\* "forged-<relation>": the carried credential names the trusted issuer i but is signed by an attacker (key and verification method)
+VCStates == {"ok", "expired", "notyet", "revoked", "untrusted", "badsig"} \cup {"forged-unrelated", "forged-host-suffix", "forged-sub-path", "forged-shorter"}
+Forged(st) == st \in {"forged-unrelated", "forged-host-suffix", "forged-sub-path", "forged-shorter"}
 VPVcCases == {[Base EXCEPT !.fam = "vpvc", !.kind = "vp", !.fmt = f, !.vcFmt = vf, !.vcState = st, !.verifyVCs = vv,
                            !.allowUntrusted = au, !.subjects = su] :
               f \in Formats, vf \in Formats, st \in VCStates, vv \in BOOLEAN, au \in BOOLEAN, su \in {"one", "two-same"}}
@@ -176,7 +199,7 @@ Issue ==
 
 \* an attacker e (a resolvable DID with a valid key KE) names d as issuer but signs with his own key and verification method
 Forge ==
-    /\ pc = "chosen" /\ c.vm = "other"
+    /\ pc = "chosen" /\ c.vm \in Attackers
     /\ doc' = [NoDoc EXCEPT !.signer = "KE", !.vmOwner = "e", !.issued = 4, !.expires = c.exp]
     /\ pc' = "issued" /\ Log([a |-> "Forge"]) /\ UNCHANGED <<c, verdict>>
 
@@ -185,7 +208,7 @@ Present ==
     /\ pc = "issued" /\ c.kind = "vp"
     /\ doc' = [doc EXCEPT !.vpSigner = IF c.presenter = "subject" THEN "d" ELSE "e",
                           !.vpCreated = 4, !.vpExpires = c.exp,
-                          !.own = c.presenter = "subject" /\ c.holder # "other" /\ c.subjects # "two-mixed"]
+                          !.own = c.presenter = "subject" /\ c.holder # "other" /\ c.subjects # "two-mixed" /\ ~Forged(c.vcState)]
     /\ pc' = "presented" /\ Log([a |-> "Present"]) /\ UNCHANGED <<c, verdict>>
 
 Mutate ==
@@ -230,6 +253,7 @@ CarriedVC(x) ==
     ELSE IF st = "untrusted" /\ ~x.allowUntrusted THEN "untrusted"
     ELSE IF st \in {"expired", "notyet"} THEN "not-valid-at-time"
     ELSE IF st = "badsig" THEN "key-not-found"
+    ELSE IF Forged(st) THEN "vm-not-of-issuer"
     ELSE "ok"
 
 (***************************************************************************)
@@ -291,7 +315,7 @@ Failing(x) ==
 Conjuncts(x) == Failing(x) = {}
 \* output of the node's own issuer / wallet from coherent input
 Own(x) == IF x.kind = "vc" THEN x.vm = "issuer"
-          ELSE x.presenter = "subject" /\ x.holder # "other" /\ x.subjects # "two-mixed"
+          ELSE x.presenter = "subject" /\ x.holder # "other" /\ x.subjects # "two-mixed" /\ ~Forged(x.vcState)
 
 Required(x) == IF x.fam = "mut" THEN (IF Semantic(x) THEN "reject" ELSE "any")
                ELSE IF ~Conjuncts(x) THEN "reject"
